@@ -308,6 +308,40 @@ theorem C14_history_observations (ops : List Op) :
   obtain ⟨st', h1, _, h3, _⟩ := inv.reload
   exact ⟨st', h1, h3⟩
 
+/-- order-independence across chunks: at any point of any history, two `WriteSector` calls to DIFFERENT chunks may be
+swapped — whatever follows — without changing what any `ReadSector` returns at the end.  The physical layout may well
+differ (first-fit picks runs in call order; timestamps differ); the store's content does not.  Out-of-range
+coordinates and over-limit payloads are inside the quantifier (they change nothing in either order). -/
+theorem C14_writes_to_different_chunks_commute (ops more : List Op)
+    (x₁ z₁ x₂ z₂ : Int) (d₁ d₂ : ByteArray) (t₁ t₂ : BitVec 32) (hne : idx? x₁ z₁ ≠ idx? x₂ z₂) :
+    ∀ (x z : Int) (k : Nat), idx? x z = some k →
+      readSector ((ops ++ [Op.write x₁ z₁ d₁ t₁, Op.write x₂ z₂ d₂ t₂] ++ more).foldl step createWriter.1) x z =
+      readSector ((ops ++ [Op.write x₂ z₂ d₂ t₂, Op.write x₁ z₁ d₁ t₁] ++ more).foldl step createWriter.1) x z := by
+  intro x z k hk
+  have comm : ∀ a : Nat → Option ByteArray,
+      absStep (absStep a (Op.write x₁ z₁ d₁ t₁)) (Op.write x₂ z₂ d₂ t₂) =
+      absStep (absStep a (Op.write x₂ z₂ d₂ t₂)) (Op.write x₁ z₁ d₁ t₁) := by
+    intro a
+    simp only [absStep]
+    cases h1 : idx? x₁ z₁ with
+    | none => rfl
+    | some k₁ =>
+      cases h2 : idx? x₂ z₂ with
+      | none => rfl
+      | some k₂ =>
+        have hk12 : k₁ ≠ k₂ := fun e => hne (by rw [h1, h2, e])
+        simp only []
+        by_cases c1 : needOf d₁.size < 256 <;> by_cases c2 : needOf d₂.size < 256 <;> simp only [c1, c2, if_true, if_false]
+        funext j
+        by_cases e1 : j = k₁ <;> by_cases e2 : j = k₂ <;> simp only [e1, e2, if_true, if_false]
+        · exact absurd (e1.symm.trans e2) hk12
+        · subst e1; simp only [if_neg hk12]
+        · subst e2; simp only [if_neg (Ne.symm hk12)]
+  have habs : (ops ++ [Op.write x₁ z₁ d₁ t₁, Op.write x₂ z₂ d₂ t₂] ++ more).foldl absStep (fun _ => none) =
+      (ops ++ [Op.write x₂ z₂ d₂ t₂, Op.write x₁ z₁ d₁ t₁] ++ more).foldl absStep (fun _ => none) := by
+    simp only [List.foldl_append, List.foldl_cons, List.foldl_nil, comm]
+  rw [(C14_history_observations _).1 x z k hk, (C14_history_observations _).1 x z k hk, habs]
+
 /-- non-vacuity: a fresh region satisfies the invariant (and so does every state reachable from it) -/
 example : Inv createWriter.1 (fun _ => none) := Inv.create
 
